@@ -61,6 +61,11 @@ CHECKS = {
          'Every history of tiny-stack NT/PO/NS and a cheap hold\'em-like custom game (2-3 players, cash and tournament, 1-2 starting boards) with the all-in completed on every possible street, every preference vector over {None,1,2,3}, every selection order by explicit player index interleaved with showing, manual and automated dealing: the choice is offered exactly to the live players who have not chosen, only in cash mode with board cards to come, once; the run-out count follows the consensus rule; b*r complete boards, run-outs share exactly the pre-all-in cards, no card twice, b resp. b*r cards per board position, each pot split evenly over boards with the remainder on board 0.',
          'Hold\'em-like street lists only. Exceptions on histories of the shapes covered by the C07 known findings are not judged.',
          'DESIGN.md section 4 C14'),
+ 'C10': ('model_checking',
+         'explicit-state BFS over the real State in product with an independent per-street dealing-protocol automaton stepped on every logged operation (incl. automation cascades)',
+         'Flop, stud, razz, single/triple draw, badugi, Omaha and custom street lists (hole and board on one street, mixed facing, draw with up-cards, no burn), 2-3 players (thorough 4), 1-2 boards, 20-card-deck stud (replenish, hole-to-board fallback) and 7-8 handed stud: every history within k deviations from the default betting action x every dealing interleaving (default, several cards per call, explicit dealee) x discards none/one/two/all is checked against the street definitions: burn first iff prescribed, per live player exactly the prescribed cards with the prescribed facing, default dealee order, cards per board, draws return exactly what was discarded with the same facing, folded players get nothing, no betting before dealing is complete.',
+         'Deviation bound per family in the evidence; admissible decks only; cards per default deal_hole() call are not constrained.',
+         'DESIGN.md section 4 C10'),
 }
 
 def main():
